@@ -6,5 +6,12 @@ class Plugin(HistPlugin):
     id = 'C10'
     extra_import = 'HistProps HistPropCheck'
     check_fn = 'c10_check'
+    weights = {'insert_one': 6, 'insert_many': 3, 'update': 8, 'replace': 3, 'delete': 5, 'find': 1,
+               'count': 1, 'bulk': 1}
+    rule = ('histories of writes; after each one the reported counts are compared with the observable change '
+            '(HistProps.c10_step: deleted_count = drop in size, inserted ids = new keys, modified_count = '
+            'documents that differ); in addition (extra) for random (state, filter) pairs every '
+            'filter-taking entry point is run on clones of the same state and must agree. Non-trivial = '
+            'a multi-document write touching at least two documents; distinct by canonical JSON.')
     FINDING_BITS = 0
     UNDECIDED_BITS = 1 | 2
